@@ -793,8 +793,8 @@ func (c *CharSet) addNamedASCII(name string, negate bool) bool {
 		rs = []SingleRange{{' ', '~'}}
 	case "punct": //[!-/:-@[-`{-~]
 		rs = []SingleRange{{'!', '/'}, {':', '@'}, {'[', '`'}, {'{', '~'}}
-	case "space":
-		c.addSpace(true, false, negate)
+	case "space": //[\t\n\v\f\r ]
+		rs = []SingleRange{{'\t', '\r'}, {' ', ' '}}
 	case "upper":
 		rs = []SingleRange{{'A', 'Z'}}
 	case "word":
